@@ -189,6 +189,18 @@ func Execute(c *Case, agg *core.Agg) (*failure, uint64) {
 		reps[i] = reporting.NewReporter(pass, is)
 	}
 	limit := reporting.MaxLineLength
+	// no fault, no edit, no remap anywhere in the case: what is on the disk is what was parsed
+	historyFree := true
+	for _, op := range c.Ops {
+		if op.Kind == "edit" || op.Kind == "fault" {
+			historyFree = false
+		}
+	}
+	for _, f := range c.Files {
+		if f.RemapFrom > 0 {
+			historyFree = false
+		}
+	}
 
 	for oi, op := range c.Ops {
 		log.Str(op.Kind)
@@ -240,6 +252,25 @@ func Execute(c *Case, agg *core.Agg) (*failure, uint64) {
 			log.Str(msg)
 			if d.reads == readsBefore {
 				agg.Inc("probe.report_served_from_cache")
+			}
+			if historyFree {
+				// the cache must be transparent: a fresh reporter renders the same message
+				var fresh []string
+				p2 := &analysis.Pass{Fset: fset, ReadFile: func(name string) ([]byte, error) { return append([]byte(nil), d.files[name]...), nil },
+					Report: func(dg analysis.Diagnostic) { fresh = append(fresh, dg.Message) }}
+				func() {
+					defer func() { recover() }()
+					var is *util.IgnoreSet
+					if c.IgnoreSet == "empty" {
+						is = &util.IgnoreSet{}
+					}
+					reporting.NewReporter(p2, is).ReportViolation(viol{op.Code, pos, op.Msg})
+				}()
+				agg.Inc("probe.compared_with_fresh_reporter")
+				if len(fresh) == 1 && fresh[0] != msg {
+					return &failure{"history-dependent-rendering", fmt.Sprintf("op %d: report by reporter %d at %s:%d:%d: the message differs from what a fresh reporter renders for the same violation over the same, unchanged file (no fault, no edit in this run) - the reporter's cache is not transparent\nthrough the used reporter:\n%s\nthrough a fresh reporter:\n%s",
+						oi, op.R, position.Filename, position.Line, position.Column, indent(clip(msg, 1200)), indent(clip(fresh[0], 1200)))}, log.Sum()
+				}
 			}
 			if f := judge(msg, position, d, op.R, limit, agg); f != nil {
 				f.detail = fmt.Sprintf("op %d: report by reporter %d at %s:%d:%d (pos in parsed file %s line %d col %d)\n%s\nmessage was:\n%s",
